@@ -135,6 +135,9 @@ class Degrees:
             for x in ds[1:]:
                 d = dsame(d, x) if nm != 'copysign' else d
             return d
+        if nm in ('atan2', 'atan2d') and len(ds) == 2:
+            # homogeneous of degree 0 in its two arguments jointly
+            return 0 if (ds[0] == ds[1] and ds[0] != TOPD) else TOPD
         callee = self.prog.fns.get(ce.get('usr'))
         onthis = n.get('objthis') or (ce.get('method') and n['k'] != 'CXXMemberCallExpr' and not ce.get('mstatic'))
         if callee is not None and callee.d.get('body', -1) >= 0 and ce.get('method') and not ce.get('mstatic') and \
@@ -294,3 +297,43 @@ def rule_H1(ctx, classes):
                              'after SetScale member %s still scales as (old scale)**%s: the new state depends on the scale the '
                              'object had before the call' % (m, d1))
     return res, nset, nmem
+
+
+OUT_DEGREE = {'x': 1, 'y': 1, 'k': 1, 'lat': 0, 'lon': 0, 'gamma': 0}
+
+
+def rule_H2(ctx, classes):
+    res = RuleResult('H2', 'scale homogeneity of the projections: with the scale members typed by their degree in the '
+                           'constructor\'s scale argument, Forward returns x, y and k of degree 1 and gamma of degree 0; '
+                           'Reverse (x, y of degree 1 in) returns lat, lon, gamma of degree 0 and k of degree 1 - on every '
+                           'path (a scale factor applied on one branch only, or twice, shows as a mixed or wrong degree)')
+    nfn = 0
+    nout = 0
+    for cls in classes:
+        deg, nct = member_degrees(ctx, cls)
+        if not nct or not any(d != 0 for d in deg.values()):
+            raise AnalysisBroken('H2: no scale-carrying member derived for %s' % cls)
+        for f in sorted(ctx.lib_fns(), key=lambda x: (x.file, x.line)):
+            if f.cls != cls or f.name not in ('Forward', 'Reverse') or f.d.get('body', -1) < 0 or \
+                    not any(p['name'] == 'k' and p['pk'] in ('r', 'p') for p in f.params):
+                continue
+            nfn += 1
+            mem = dict(deg)
+            penv = {}
+            for p in f.params:
+                penv[p['d']] = 1 if (f.name == 'Reverse' and p['name'] in ('x', 'y') and p['pk'] in ('v', 'cr')) else 0
+            D = Degrees(ctx.prog, f, mem, penv)
+            D.ex(f.d['body'])
+            for p in f.params:
+                if p['pk'] not in ('r', 'p') or p['name'] not in OUT_DEGREE:
+                    continue
+                nout += 1
+                got = D.env.get(p['d'], 0)
+                want = OUT_DEGREE[p['name']]
+                ok = got == want
+                res.ob(ok, {'fn': f.q, 'output': p['name'], 'degree': got, 'required': want} if (not ok or nout % 6 == 1) else None)
+                if not ok:
+                    res.fail(f.q, p['name'], f.loc(), 'output %s of %s has degree %s in the scale (required %d): the scale '
+                             'factor is not applied uniformly on every path' % (p['name'], f.q, got, want))
+    res.analysed.update({'functions': nfn, 'outputs': nout})
+    return res, nfn, nout
